@@ -55,7 +55,7 @@ def history_fn(hist, bs, rate, nb, opts):
                            dims=None if fd is None else (nb[0] * bs[1] - fd, nb[1] * bs[2] - fd))
         else:
             T = sym_sgz_3d(E, bs, rate, nb, version=ver, axes=(1, 1), stored=stored,
-                           dims=None if fd is None else tuple(nb[k] * bs[k] - fd for k in range(3)))
+                           dims=tuple(opts['dims']) if opts.get('dims') else None if fd is None else tuple(nb[k] * bs[k] - fd for k in range(3)))
             cap = opts.get('dimcap')
             need = set()
             for m in ms:
@@ -69,6 +69,11 @@ def history_fn(hist, bs, rate, nb, opts):
                 T.dims = (int(T.dims[0]), T.dims[1], T.dims[2])
             if 'nxl' in need:
                 T.dims = (T.dims[0], int(T.dims[1]), T.dims[2])
+            if opts.get('holes'):
+                # irregular file (population mask from the stored inline-number array): the header-array caches exist in two
+                # forms (with / without the entries of absent traces), which is state a history can get wrong
+                T.dims = (int(T.dims[0]), int(T.dims[1]), T.dims[2])
+                readers.apply_holes(E, T, opts['holes'])
         st = make_store(T)
         kw = dict(chunk_cache_size=opts.get('chunk_cache_size'), preload=bool(opts.get('preload')))
         with Quiet():
@@ -137,7 +142,7 @@ def mk_item(hist, bs, rate, nb, tier, opts=None):
     if any(h in ('read_subvolume', 'read_subplane') for h in hist) and 'fixdims' not in opts:
         opts['fixdims'] = 1 if tier == 'quick' else 2     # histories with 6-argument boxes: concrete cube, symbolic arguments
     desc = '%s|bs=%s|rate=%s|nb=%s' % ('>'.join(hist), 'x'.join(map(str, bs)), rate, 'x'.join(map(str, nb)))
-    for k in ('config', 'preload', 'chunk_cache_size', 'wild', 'fixdims'):
+    for k in ('config', 'preload', 'chunk_cache_size', 'wild', 'fixdims', 'holes', 'dims'):
         if k in opts:
             desc += '|%s=%s' % (k, opts[k])
     it = Item(desc, lambda: history_fn(hist, bs, rate, nb, opts), timeout_s=170 if tier == 'quick' else 420,
@@ -190,6 +195,12 @@ def items_for(tier):
     for ccs in (None, 1):
         items.append(mk_item(['get_trace', 'get_trace', 'get_trace'], (8, 8, 64), 8, (2, 2, 1), tier, dict(dimcap=1, chunk_cache_size=ccs)))
     items.append(mk_item(['get_trace', 'read_subvolume', 'get_trace'], (8, 8, 64), 8, (2, 2, 1), tier, dict(dimcap=1)))
+    # irregular 3D files: trace / header ordinals go through the population mask, header arrays are cached masked or padded
+    irr = ['gen_trace_header_irregular', 'get_tracefield_values_0', 'get_trace_irregular']
+    for a in irr:
+        for b in irr:
+            for nh, dims in (((1, (3, 2, 5)),) if quick else ((1, (3, 2, 5)), (2, (3, 3, 5)), (1, (5, 3, 7)))):
+                items.append(mk_item([a, b], (4, 4, 256), 8, (2, 1, 1) if dims[0] > 4 else (1, 1, 1), tier, dict(dims=dims, holes=nh)))
     # 2D
     for a, b in [('read_subplane', 'read_subplane'), ('get_trace_2d', 'get_trace_2d'), ('read_subplane', 'get_trace_2d'),
                  ('gen_trace_header_2d', 'get_trace_2d'), ('get_trace_2d', 'gen_trace_header_2d')]:
@@ -209,10 +220,20 @@ def items_for(tier):
 
 def replay_candidate(it, c):
     meta = it.meta
+    fd = meta['opts'].get('fixdims')
+    if meta['opts'].get('dims'):
+        c['model'].update(zip(('n_il', 'n_xl', 'n_s'), meta['opts']['dims']))
+    elif fd is not None:
+        # concrete cube: the dimensions are not solver inputs
+        bs_, nb_ = meta['bs'], meta['nb']
+        if bs_[0] == 1:
+            c['model'].update(n_tr=nb_[0] * bs_[1] - fd, n_s=nb_[1] * bs_[2] - fd)
+        else:
+            c['model'].update(n_il=nb_[0] * bs_[0] - fd, n_xl=nb_[1] * bs_[1] - fd, n_s=nb_[2] * bs_[2] - fd)
     req = dict(kind='history', hist=meta['hist'], bs=meta['bs'], rate=meta['rate'], model=c['model'],
                config=meta['opts'].get('config', 'same'), preload=bool(meta['opts'].get('preload')),
                chunk_cache_size=meta['opts'].get('chunk_cache_size'), stored=list(meta['opts'].get('stored', (73, 189, 193))),
-               method=meta['hist'][-1], handlers=['replay.history'])
+               method=meta['hist'][-1], holes=meta['opts'].get('holes'), handlers=['replay.history'])
     return replay(req)
 
 
